@@ -152,10 +152,23 @@ def _z_worker(item):
                 inputs.write_segy_traces(sgy, inputs.cube((5, nz), ci), samples, [{} for _ in range(5)])
             with segyio.open(sgy, strict=False) as s:
                 exp = np.asarray(s.samples, dtype=np.float64).tolist()        # the source's own axis
+                src_lines = None if s.unstructured else (np.asarray(s.ilines).tolist(), np.asarray(s.xlines).tolist())
+                src_ntr = int(s.tracecount)
             writers.segy_to_sgz(sgy, p, 32 if nz <= 64 else 16, None)
             os.remove(sgy)
+            # ... and after export back to SEG-Y (segyio on the exported file)
+            from seismic_zfp.conversion import SgzConverter
+            with env.quiet():
+                with SgzConverter(p) as cv:
+                    cv.convert_to_segy(p + '.out.sgy')
+            with segyio.open(p + '.out.sgy', strict=False) as s2:
+                export = {'z': np.asarray(s2.samples, dtype=np.float64).tolist(), 'ntr': int(s2.tracecount),
+                          'lines': None if s2.unstructured else (np.asarray(s2.ilines).tolist(), np.asarray(s2.xlines).tolist())}
+            os.remove(p + '.out.sgy')
+            export['ok_lines'] = export['lines'] == src_lines and export['ntr'] == src_ntr
         g, words = _read_geom(p)
-        return {'z': g['z'], 'emu_z': g['emu_z'], 'exp': exp, 'dz_word': words['dz'], 'z0_word': words['z0'], 'ntr': g['ntr']}
+        return {'z': g['z'], 'emu_z': g['emu_z'], 'exp': exp, 'dz_word': words['dz'], 'z0_word': words['z0'], 'ntr': g['ntr'],
+                'export': export if c['route'] in ('segy', 'segy2d') else None}
     except BaseException as e:
         if isinstance(e, (KeyboardInterrupt, SystemExit, MemoryError)):
             raise
@@ -249,6 +262,46 @@ def fixtures(run):
                 if r.is_3d:
                     ok = ok and np.array_equal(r.ilines, s.ilines) and np.array_equal(r.xlines, s.xlines) and r.structured
                 run.check(ok, 'C05.fixture-axes', case, {'z': np.asarray(r.zslices)[:3].tolist()}, {'z': np.asarray(s.samples)[:3].tolist()})
+    # ... and the tools applied to archived files: a crop keeps the sub-axes, a re-block keeps the axes (read under the conventions of the
+    # version the derived file records)
+    from seismic_zfp.cropping import SgzCropper
+    from seismic_zfp.conversion import SgzConverter
+    d = env.subdir('c05fx')
+    for sgz in ('small_4bit.sgz', 'small_8bit-8x8.sgz', 'small-dec_8bit.sgz', 'small_2bit.sgz', 'small_8bit.sgz', 'small_v0.0.1.sgz'):
+        a = os.path.join(inputs.FIXTURES, sgz)
+        if not os.path.exists(a):
+            continue
+        for tool in ('crop', 'reblock'):
+            if tool == 'reblock' and sgz != 'small_2bit.sgz':
+                continue
+            case = {'fixture': sgz, 'tool': tool}
+            run.case(case)
+            out_p = os.path.join(d, f'{tool}-{sgz}')
+            try:
+                with env.quiet():
+                    with SgzReader(a) as r:
+                        il, xl, zs, ntr = np.asarray(r.ilines), np.asarray(r.xlines), np.asarray(r.zslices, dtype=np.float64), int(r.tracecount)
+                        b0 = min(int(r.blockshape[0]), len(il))       # the first block row of inlines (all of them when a block is taller)
+                    if tool == 'crop':
+                        with SgzCropper(a) as c:
+                            c.write_cropped_file_by_indexes(out_p, (0, b0), None, None)
+                        il = il[:b0]
+                        ntr = len(il) * len(xl)
+                    else:
+                        with SgzConverter(a) as c:
+                            c.convert_to_adv_sgz(out_p)
+                    with SgzReader(out_p) as r2:
+                        ok = (np.array_equal(r2.ilines, il) and np.array_equal(r2.xlines, xl) and close(np.asarray(r2.zslices, dtype=np.float64).tolist(), zs.tolist())
+                              and int(r2.tracecount) == ntr and bool(r2.structured))
+                        got = {'il': np.asarray(r2.ilines)[:3].tolist(), 'z': np.asarray(r2.zslices)[:3].tolist(), 'ntr': int(r2.tracecount), 'structured': bool(r2.structured)}
+                run.check(ok, f'C05.fixture-axes-after-{tool}', case, got, {'il': il[:3].tolist(), 'z': zs[:3].tolist(), 'ntr': ntr})
+            except BaseException as e:
+                if isinstance(e, (KeyboardInterrupt, SystemExit, MemoryError)):
+                    raise
+                run.fail(f'C05.fixture-axes-after-{tool}', case, f'{type(e).__name__}: {e}', 'a readable derived file')
+            finally:
+                if os.path.exists(out_p):
+                    os.remove(out_p)
 
 
 def judge_axis(run, c, r, ev, W, K):
@@ -302,6 +355,9 @@ def run(run):
             continue
         run.check(close(r['z'], r['exp']), f'C05.sample-axis[{c["route"]}]', case, {'n': len(r['z']), 'z': r['z'][:4]}, {'n': len(r['exp']), 'z': r['exp'][:4]})
         run.check(close(r['emu_z'], r['exp']), f'C05.sample-axis-emulator[{c["route"]}]', case, {'n': len(r['emu_z']), 'z': r['emu_z'][:4]}, None)
+        if r.get('export'):
+            run.check(close(r['export']['z'], r['exp']), f'C05.sample-axis-after-export[{c["route"]}]', case, {'z': r['export']['z'][:4]}, {'z': r['exp'][:4]})
+            run.check(r['export']['ok_lines'], f'C05.lines-tracecount-after-export[{c["route"]}]', case, {'ntr': r['export']['ntr']}, 'as the source')
         # model: a file newer than 0.1.6 stores the interval in whole microseconds and the start in whole ms
         if c['route'] == 'numpy-crop2':
             run.traces_validated += 0
@@ -326,6 +382,9 @@ def replay(run, rep):
             return
         run.check(close(r['z'], r['exp']), f'C05.sample-axis[{c["route"]}]', c, {'n': len(r['z']), 'z': r['z'][:4]}, {'n': len(r['exp']), 'z': r['exp'][:4]})
         run.check(close(r['emu_z'], r['exp']), f'C05.sample-axis-emulator[{c["route"]}]', c, None, None)
+        if r.get('export'):
+            run.check(close(r['export']['z'], r['exp']), f'C05.sample-axis-after-export[{c["route"]}]', c, {'z': r['export']['z'][:4]}, {'z': r['exp'][:4]})
+            run.check(r['export']['ok_lines'], f'C05.lines-tracecount-after-export[{c["route"]}]', c, None, None)
         return
     cc = dict(c)
     r = _axis_worker((0, cc))
